@@ -1,4 +1,5 @@
 pub mod c01;
+pub mod c05;
 pub mod c06;
 
 use crate::pool::Merged;
@@ -20,8 +21,20 @@ pub struct Prop {
     pub vacuity: fn(&Merged) -> Option<String>,
 }
 
+impl Prop {
+    /// Stack of the thread that runs the interpreter. C05 uses an ordinary 8 MiB stack (what a user's
+    /// process has), so that native-stack exhaustion is seen as the crash it is.
+    pub fn stack_bytes(&self) -> usize {
+        if self.id == "C05" {
+            8 << 20
+        } else {
+            1 << 30
+        }
+    }
+}
+
 pub fn registry() -> Vec<Prop> {
-    vec![c01::prop(), c06::prop()]
+    vec![c01::prop(), c05::prop(), c06::prop()]
 }
 
 pub fn find(id: &str) -> Option<Prop> {
